@@ -55,26 +55,32 @@ func runDecl(c *Ctx) {
 	seqsUpTo(lists, n, func(seq []string) {
 		idx++
 		if c.Mine(idx) && c.Begin("decl-opts", strings.Join(seq, ";")) {
-			declOptsCase(c, seq)
+			for rot := 0; rot < c18Kinds; rot++ {
+				declOptsCase(c, seq, rot, false)
+				declOptsCase(c, seq, rot, true)
+			}
 		}
 	})
 	seqsUpTo(c18ArgNames, n, func(seq []string) {
 		idx++
 		if c.Mine(idx) && c.Begin("decl-args", strings.Join(seq, ";")) {
-			declArgsCase(c, seq)
+			for rot := 0; rot < c18Kinds; rot++ {
+				declArgsCase(c, seq, rot, false)
+				declArgsCase(c, seq, rot, true)
+			}
 		}
 	})
-	c.Note("options", fmt.Sprintf("all sequences of <= %d option declarations whose name lists are the %d non-empty ordered lists of <= 2 distinct names from %q (declared with BoolOpt / StringOpt / IntOpt / StringsOpt in rotation)", n, len(lists), c18OptNames))
-	c.Note("arguments", fmt.Sprintf("all sequences of <= %d argument declarations with names from %q", n, c18ArgNames))
+	c.Note("options", fmt.Sprintf("all sequences of <= %d option declarations whose name lists are the %d non-empty ordered lists of <= 2 distinct names from %q (declared with BoolOpt / StringOpt / IntOpt / StringsOpt / IntsOpt / Float64Opt / Floats64Opt / VarOpt in rotation, every one of the 8 rotation offsets, on the root command and inside the initialiser of a sub-command)", n, len(lists), c18OptNames))
+	c.Note("arguments", fmt.Sprintf("all sequences of <= %d argument declarations with names from %q, declared with StringsArg / StringArg / IntArg / IntsArg / BoolArg / Float64Arg / Floats64Arg / VarArg in every rotation, on the root command and inside the initialiser of a sub-command", n, c18ArgNames))
 }
 
 func replayDecl(c *Ctx, cs Case) {
 	if w := cStr(cs, "what"); strings.HasSuffix(w, "-ptr") {
 		declPtrCase(c, cStrs(cs, "seq"), w == "args-ptr")
 	} else if w == "opts" {
-		declOptsCase(c, cStrs(cs, "seq"))
+		declOptsCase(c, cStrs(cs, "seq"), cInt(cs, "rot"), cBool(cs, "sub"))
 	} else {
-		declArgsCase(c, cStrs(cs, "seq"))
+		declArgsCase(c, cStrs(cs, "seq"), cInt(cs, "rot"), cBool(cs, "sub"))
 	}
 }
 
@@ -148,11 +154,59 @@ func declPtrCase(c *Ctx, seq []string, args bool) {
 	}
 }
 
-func declOptsCase(c *Ctx, seq []string) {
-	declPtrCase(c, seq, false)
+
+// c18Kinds: the option kinds declarations rotate through; every sequence is declared once per rotation offset,
+// on the root command and on a sub-command (each command has its own name table)
+const c18Kinds = 8
+
+type c18Var struct{ v string }
+
+func (x *c18Var) Set(s string) error { x.v = s; return nil }
+func (x *c18Var) String() string     { return x.v }
+
+// declOptKind declares names on cmd as an option of the given kind and returns a reader telling whether it was set
+// (every kind accepts the value "5"; kind 0 is a flag)
+func declOptKind(cmd *cli.Cmd, kind int, names string) func() bool {
+	switch kind % c18Kinds {
+	case 0:
+		p := cmd.BoolOpt(names, false, "")
+		return func() bool { return *p }
+	case 1:
+		p := cmd.StringOpt(names, "", "")
+		return func() bool { return *p != "" }
+	case 2:
+		p := cmd.IntOpt(names, 0, "")
+		return func() bool { return *p != 0 }
+	case 3:
+		p := cmd.StringsOpt(names, nil, "")
+		return func() bool { return len(*p) > 0 }
+	case 4:
+		p := cmd.IntsOpt(names, nil, "")
+		return func() bool { return len(*p) > 0 }
+	case 5:
+		p := cmd.Float64Opt(names, 0, "")
+		return func() bool { return *p != 0 }
+	case 6:
+		p := cmd.Floats64Opt(names, nil, "")
+		return func() bool { return len(*p) > 0 }
+	default:
+		v := &c18Var{}
+		cmd.VarOpt(names, v, "")
+		return func() bool { return v.v != "" }
+	}
+}
+
+func declOptsCase(c *Ctx, seq []string, rot int, sub bool) {
+	if rot == 0 && !sub {
+		declPtrCase(c, seq, false)
+	}
 	c.Count("evaluations", 1)
-	key := fmt.Sprintf("option declarations %q", seq)
-	cs := func() Case { return Case{"what": "opts", "seq": seq} }
+	where := "the root command"
+	if sub {
+		where = "a sub-command"
+	}
+	key := fmt.Sprintf("option declarations %q on %s, kinds rotated by %d", seq, where, rot)
+	cs := func() Case { return Case{"what": "opts", "seq": seq, "rot": rot, "sub": sub} }
 	// expectation: the first declaration one of whose names is already taken panics
 	taken := map[string]int{}
 	wantPanic := -1
@@ -172,42 +226,62 @@ func declOptsCase(c *Ctx, seq []string) {
 	if wantPanic >= 0 {
 		c.Count("nontrivial", 1)
 	}
-	app := cli.App("app", "")
-	app.ErrorHandling = flag.ContinueOnError
-	readers := make([]func() bool, len(seq))
-	gotPanic, panicVal := -1, interface{}(nil)
-	for i, d := range seq {
-		func() {
-			defer func() {
-				if r := recover(); r != nil {
-					gotPanic, panicVal = i, r
-				}
-			}()
-			switch i % 4 {
-			case 0:
-				p := app.BoolOpt(d, false, "")
-				readers[i] = func() bool { return *p }
-			case 1:
-				p := app.StringOpt(d, "", "")
-				readers[i] = func() bool { return *p != "" }
-			case 2:
-				p := app.IntOpt(d, 0, "")
-				readers[i] = func() bool { return *p != 0 }
-			case 3:
-				p := app.StringsOpt(d, nil, "")
-				readers[i] = func() bool { return len(*p) > 0 }
-			}
-		}()
-		if gotPanic >= 0 {
-			break
-		}
+	// build declares seq on a fresh application (declarations are per application), each declaration under its own
+	// recover; on a sub-command the declarations run inside its initialiser, i.e. during Run
+	type built struct {
+		app      *cli.Cli
+		readers  []func() bool
+		gotPanic int
+		panicVal interface{}
+		ran      int
+		set      []int
+		prefix   []string
 	}
-	if gotPanic != wantPanic {
+	build := func() *built {
+		b := &built{app: cli.App("app", ""), readers: make([]func() bool, len(seq)), gotPanic: -1, prefix: []string{"app"}}
+		b.app.ErrorHandling = flag.ContinueOnError
+		decl := func(cmd *cli.Cmd) {
+			for i, d := range seq {
+				func() {
+					defer func() {
+						if r := recover(); r != nil {
+							b.gotPanic, b.panicVal = i, r
+						}
+					}()
+					b.readers[i] = declOptKind(cmd, i+rot, d)
+				}()
+				if b.gotPanic >= 0 {
+					return
+				}
+			}
+			cmd.Action = func() {
+				b.ran++
+				for i, r := range b.readers {
+					if r() {
+						b.set = append(b.set, i)
+					}
+				}
+			}
+		}
+		if sub {
+			b.app.Command("sub", "", decl)
+			b.prefix = []string{"app", "sub"}
+		} else {
+			decl(b.app.Cmd)
+		}
+		return b
+	}
+	b := build()
+	if sub {
+		sharedBuf.Reset()
+		runDirect(&sharedBuf, func() error { return b.app.Run(b.prefix) })
+	}
+	if b.gotPanic != wantPanic {
 		exp := "no declaration panics"
 		if wantPanic >= 0 {
 			exp = fmt.Sprintf("declaration %d (%q) panics: a name is already taken", wantPanic, seq[wantPanic])
 		}
-		c.Violation("C18", key, cs(), exp, fmt.Sprintf("panic at declaration %d: %v", gotPanic, safeSprint(panicVal)))
+		c.Violation("C18", key, cs(), exp, fmt.Sprintf("panic at declaration %d: %v", b.gotPanic, safeSprint(b.panicVal)))
 		return
 	}
 	if wantPanic >= 0 {
@@ -215,59 +289,26 @@ func declOptsCase(c *Ctx, seq []string) {
 	}
 	// every listed name sets the variable of the option it was listed for, and no other
 	for name, owner := range taken {
-		for i := range seq {
-			_ = i
-		}
 		arg := dashed(name)
-		val := "5"
-		if owner%4 == 0 {
-			arg, val = dashed(name), ""
+		argv := []string{arg + "=5"}
+		if len(name) == 1 {
+			argv = []string{arg, "5"}
 		}
-		argv := []string{"app", arg}
-		if val != "" {
-			argv = []string{"app", arg + "=" + val}
-			if len(name) == 1 {
-				argv = []string{"app", arg, val}
-			}
+		if (owner+rot)%c18Kinds == 0 {
+			argv = []string{arg}
 		}
-		// fresh application per run (declarations are per application)
-		app2 := cli.App("app", "")
-		app2.ErrorHandling = flag.ContinueOnError
-		rd := make([]func() bool, len(seq))
-		for i, d := range seq {
-			switch i % 4 {
-			case 0:
-				p := app2.BoolOpt(d, false, "")
-				rd[i] = func() bool { return *p }
-			case 1:
-				p := app2.StringOpt(d, "", "")
-				rd[i] = func() bool { return *p != "" }
-			case 2:
-				p := app2.IntOpt(d, 0, "")
-				rd[i] = func() bool { return *p != 0 }
-			case 3:
-				p := app2.StringsOpt(d, nil, "")
-				rd[i] = func() bool { return len(*p) > 0 }
-			}
-		}
-		ran := 0
-		var set []int
-		app2.Action = func() {
-			ran++
-			for i, r := range rd {
-				if r() {
-					set = append(set, i)
-				}
-			}
-		}
+		b2 := build()
 		sharedBuf.Reset()
-		o := runDirect(&sharedBuf, func() error { return app2.Run(argv) })
+		o := runDirect(&sharedBuf, func() error { return b2.app.Run(append(append([]string{}, b2.prefix...), argv...)) })
 		c.Count("name_lookups", 1)
-		if !(o.Returned && o.Err == nil && ran == 1 && len(set) == 1 && set[0] == owner) {
-			c.Violation("C18", key+fmt.Sprintf(" argv=%q", argv[1:]), cs(), fmt.Sprintf("%s sets exactly the variable of declaration %d (%q)", arg, owner, seq[owner]),
-				fmt.Sprintf("err=%v ran=%d variables set: %v panic=%v", o.Err, ran, set, safeSprint(o.PanicVal)))
+		if !(o.Returned && o.Err == nil && b2.gotPanic < 0 && b2.ran == 1 && len(b2.set) == 1 && b2.set[0] == owner) {
+			c.Violation("C18", key+fmt.Sprintf(" argv=%q", argv), cs(), fmt.Sprintf("%s sets exactly the variable of declaration %d (%q)", arg, owner, seq[owner]),
+				fmt.Sprintf("err=%v ran=%d variables set: %v panic=%v", o.Err, b2.ran, b2.set, safeSprint(o.PanicVal)))
 			return
 		}
+	}
+	if rot != 0 || sub {
+		return
 	}
 	// the version flag is an option like any other: Version() with a taken name panics, with free names it does not
 	for _, vn := range []string{"v version", seq[0], strings.Fields(seq[len(seq)-1])[len(strings.Fields(seq[len(seq)-1]))-1] + " vv"} {
@@ -320,11 +361,48 @@ func declOptsCase(c *Ctx, seq []string) {
 	}
 }
 
-func declArgsCase(c *Ctx, seq []string) {
-	declPtrCase(c, seq, true)
+// declArgKind declares an argument of the given kind and returns a reader of its value as text
+func declArgKind(cmd *cli.Cmd, kind int, name string) func() string {
+	switch kind % c18Kinds {
+	case 0:
+		l := cmd.StringsArg(name, nil, "")
+		return func() string { return strings.Join(*l, ",") }
+	case 1:
+		p := cmd.StringArg(name, "", "")
+		return func() string { return *p }
+	case 2:
+		p := cmd.IntArg(name, 0, "")
+		return func() string { return fmt.Sprint(*p) }
+	case 3:
+		p := cmd.IntsArg(name, nil, "")
+		return func() string { return strings.Trim(fmt.Sprint(*p), "[]") }
+	case 4:
+		p := cmd.BoolArg(name, false, "")
+		return func() string { return fmt.Sprint(*p) }
+	case 5:
+		p := cmd.Float64Arg(name, 0, "")
+		return func() string { return fmt.Sprint(*p) }
+	case 6:
+		p := cmd.Floats64Arg(name, nil, "")
+		return func() string { return strings.Trim(fmt.Sprint(*p), "[]") }
+	default:
+		v := &c18Var{}
+		cmd.VarArg(name, v, "")
+		return func() string { return v.v }
+	}
+}
+
+func declArgsCase(c *Ctx, seq []string, rot int, sub bool) {
+	if rot == 0 && !sub {
+		declPtrCase(c, seq, true)
+	}
 	c.Count("evaluations", 1)
-	key := fmt.Sprintf("argument declarations %q", seq)
-	cs := func() Case { return Case{"what": "args", "seq": seq} }
+	where := "the root command"
+	if sub {
+		where = "a sub-command"
+	}
+	key := fmt.Sprintf("argument declarations %q on %s, kinds rotated by %d", seq, where, rot)
+	cs := func() Case { return Case{"what": "args", "seq": seq, "rot": rot, "sub": sub} }
 	taken := map[string]bool{}
 	wantPanic := -1
 	for i, n := range seq {
@@ -341,24 +419,51 @@ func declArgsCase(c *Ctx, seq []string) {
 	app.ErrorHandling = flag.ContinueOnError
 	vars := make([]func() string, len(seq))
 	gotPanic, panicVal := -1, interface{}(nil)
-	for i, n := range seq {
-		func() {
-			defer func() {
-				if r := recover(); r != nil {
-					gotPanic, panicVal = i, r
-				}
+	ran := 0
+	var got []string
+	var target *cli.Cmd
+	decl := func(cmd *cli.Cmd) {
+		target = cmd
+		for i, n := range seq {
+			func() {
+				defer func() {
+					if r := recover(); r != nil {
+						gotPanic, panicVal = i, r
+					}
+				}()
+				vars[i] = declArgKind(cmd, i+rot, n)
 			}()
-			if i%2 == 0 {
-				l := app.StringsArg(n, nil, "")
-				vars[i] = func() string { return strings.Join(*l, ",") }
-			} else {
-				s := app.StringArg(n, "", "")
-				vars[i] = func() string { return *s }
+			if gotPanic >= 0 {
+				return
 			}
-		}()
-		if gotPanic >= 0 {
-			break
 		}
+		cmd.Action = func() {
+			ran++
+			for _, v := range vars {
+				got = append(got, v())
+			}
+		}
+	}
+	// every valid argument receives its own token ("true" for the bool kind, a small number otherwise)
+	argv := []string{"app"}
+	if sub {
+		app.Command("sub", "", decl)
+		argv = append(argv, "sub")
+	} else {
+		decl(app.Cmd)
+	}
+	var wantToks []string
+	for i := range seq {
+		t := fmt.Sprint(i + 1)
+		if (i+rot)%c18Kinds == 4 {
+			t = "true"
+		}
+		wantToks = append(wantToks, t)
+	}
+	sharedBuf.Reset()
+	o := Outcome{}
+	if sub || wantPanic < 0 {
+		o = runDirect(&sharedBuf, func() error { return app.Run(append(argv, wantToks...)) })
 	}
 	if gotPanic != wantPanic {
 		exp := "no declaration panics"
@@ -371,34 +476,19 @@ func declArgsCase(c *Ctx, seq []string) {
 	if wantPanic >= 0 {
 		return
 	}
-	// all valid: each argument receives its own token
-	argv := []string{"app"}
-	for i := range seq {
-		argv = append(argv, fmt.Sprintf("tok%d", i))
-	}
-	ran := 0
-	var got []string
-	app.Action = func() {
-		ran++
-		for _, v := range vars {
-			got = append(got, v())
-		}
-	}
-	sharedBuf.Reset()
-	o := runDirect(&sharedBuf, func() error { return app.Run(argv) })
-	want := strings.Join(argv[1:], " ")
+	want := strings.Join(wantToks, " ")
 	if !(o.Returned && o.Err == nil && ran == 1 && strings.Join(got, " ") == want) {
 		c.Violation("C18", key+" (binding)", cs(), "each argument holds its own token: "+want, fmt.Sprintf("err=%v ran=%d got=%q panic=%v", o.Err, ran, got, safeSprint(o.PanicVal)))
 	}
 	panicked := false
 	func() {
 		defer func() { panicked = recover() != nil }()
-		app.StringArg(seq[0], "", "")
+		target.StringArg(seq[0], "", "")
 	}()
 	if !panicked {
 		c.Violation("C18", key+fmt.Sprintf(" then Run, then argument %q", seq[0]), cs(), "declaring an argument whose name is already taken panics (also after a Run)", "no panic")
 	}
-	if len(seq) >= 2 && c.WantSample("arguments") {
+	if rot == 0 && !sub && len(seq) >= 2 && c.WantSample("arguments") {
 		c.Sample("arguments", Case{"declarations": seq, "panics_at": wantPanic})
 	}
 }
